@@ -7,6 +7,7 @@ import (
 	"errors"
 	"fmt"
 	"math"
+	"regexp"
 	"sort"
 	"strings"
 
@@ -53,6 +54,7 @@ type codecScenario struct {
 	PutText    string   `json:"put_dump,omitempty"`
 	ReadText   string   `json:"read_dump,omitempty"`
 	WLogText   string   `json:"wlog_read_dump,omitempty"`
+	ReputText  string   `json:"reappended_read_dump,omitempty"`
 	Accepted   []int    `json:"accepted_prefixes"`
 	Tested     int      `json:"prefixes_tested,omitempty"`
 	MutResults []string `json:"mutation_results,omitempty"`
@@ -68,6 +70,8 @@ type scenario struct {
 }
 
 const scratchPart = 64000
+
+var origRe = regexp.MustCompile(` orig=\S+`)
 
 func putCode(err error) (uint64, string) {
 	switch {
@@ -107,8 +111,15 @@ func hasFrom(log map[uint64]uint64, part uint64, from uint64) bool {
 	return false
 }
 
-// classify an observed read against the expectation: "" (as the property says), "F9", "F10" or "other"
-func classify(log map[uint64]uint64, rd *readSpec) string {
+// the stored-form digest of an appended event where it differs from the digest of the appended object
+type altDig struct {
+	stored uint64
+	cause  string
+}
+
+// classify an observed read against the expectation: "" (as the property says), "F9", "F10", "F4", "F6",
+// "F4+F6" or "other"
+func classify(log map[uint64]uint64, alt map[uint64]altDig, rd *readSpec) string {
 	exp := expected(log, rd.Off, rd.Count)
 	got := rd.Got
 	same := len(exp) == len(got)
@@ -121,6 +132,21 @@ func classify(log map[uint64]uint64, rd *readSpec) string {
 	}
 	if same && rd.Err == "" {
 		return ""
+	}
+	if rd.Err == "" && len(exp) == len(got) {
+		// the right offsets, and every deviating event was delivered in its stored form: one cause only
+		cause := ""
+		for i := range exp {
+			if exp[i] == got[i] {
+				continue
+			}
+			a, ok := alt[exp[i][0]]
+			if !ok || got[i][0] != exp[i][0] || got[i][1] != a.stored || (cause != "" && cause != a.cause) {
+				return "other"
+			}
+			cause = a.cause
+		}
+		return cause
 	}
 	if rd.Err != "" || rd.Count <= 1 {
 		return "other"
@@ -195,11 +221,17 @@ func runLog(sc *scenario) (string, []string, error) {
 		id   uint64
 	}
 	logs := map[lk]map[uint64]uint64{}
-	store := func(k lk, off, dig uint64) {
+	alts := map[lk]map[uint64]altDig{}
+	store := func(k lk, off uint64, d eventDump) {
 		if logs[k] == nil {
 			logs[k] = map[uint64]uint64{}
+			alts[k] = map[uint64]altDig{}
 		}
-		logs[k][off] = dig
+		logs[k][off] = d.Digest
+		delete(alts[k], off)
+		if d.StoredDigest != d.Digest {
+			alts[k][off] = altDig{d.StoredDigest, d.Cause}
+		}
 	}
 	ls.Puts = nil
 	classes := map[string]bool{}
@@ -229,7 +261,7 @@ func runLog(sc *scenario) (string, []string, error) {
 			ecode = 1
 		}
 		terms = append(terms, fmt.Sprintf("LRead %s %d %d %s %s %d", kit.Bool(rd.WLog), rd.ID, rd.Off, countZ(rd.Count), pairList(rd.Got), ecode))
-		rd.Class = classify(logs[lk{rd.WLog, rd.ID}], rd)
+		rd.Class = classify(logs[lk{rd.WLog, rd.ID}], alts[lk{rd.WLog, rd.ID}], rd)
 		switch {
 		case rd.Count == 1:
 			tags["count:1"] = true
@@ -278,17 +310,18 @@ func runLog(sc *scenario) (string, []string, error) {
 		pev, perr := r.app.Events().PutPlog(raw, buildErr, r.gen)
 		code, txt := putCode(perr)
 		obs := putObs{PLog: txt}
-		var dig uint64
+		var d eventDump
 		if perr == nil {
-			d, err := r.dump(pev)
-			if err != nil {
+			if d, err = r.dump(pev); err != nil {
 				return "", nil, err
 			}
-			dig = d.Digest
-			obs.Dig = dig
-			store(lk{false, uint64(s.Part)}, s.POff, dig)
+			obs.Dig = d.Digest
+			store(lk{false, uint64(s.Part)}, s.POff, d)
+			if d.Cause != "" {
+				tags["put-stored-form-differs:"+d.Cause] = true
+			}
 		}
-		terms = append(terms, fmt.Sprintf("LPut false %d %d %s %d %d", s.Part, s.POff, kit.Bool(s.corrupted()), dig, code))
+		terms = append(terms, fmt.Sprintf("LPut false %d %d %s %d %d %d", s.Part, s.POff, kit.Bool(s.corrupted()), d.Digest, d.StoredDigest, code))
 		tags["put:"+s.Shape] = true
 		if code == 1 {
 			tags["put-refused"] = true
@@ -298,9 +331,9 @@ func runLog(sc *scenario) (string, []string, error) {
 			wcode, wtxt := putCode(werr)
 			obs.WLog = wtxt
 			if werr == nil {
-				store(lk{true, s.WS}, s.WOff, dig)
+				store(lk{true, s.WS}, s.WOff, d)
 			}
-			terms = append(terms, fmt.Sprintf("LPut true %d %d %s %d %d", s.WS, s.WOff, kit.Bool(s.corrupted()), dig, wcode))
+			terms = append(terms, fmt.Sprintf("LPut true %d %d %s %d %d %d", s.WS, s.WOff, kit.Bool(s.corrupted()), d.Digest, d.StoredDigest, wcode))
 		}
 		if perr == nil {
 			pev.Release()
@@ -311,6 +344,7 @@ func runLog(sc *scenario) (string, []string, error) {
 		if err := r.restart(); err != nil {
 			return "", nil, err
 		}
+		terms = append(terms, "LRestart")
 		tags["restart"] = true
 	}
 	for _, rd := range ls.Reads {
@@ -324,10 +358,17 @@ func runLog(sc *scenario) (string, []string, error) {
 		tags["F9:last-part-overread"] = true
 	case len(classes) == 1 && classes["F10"]:
 		tags["F10:stops-at-empty-part"] = true
+	case len(classes) == 1 && classes["F4"]:
+		tags["C02-F4:invalid-event-arguments-not-stored"] = true
+	case len(classes) == 1 && classes["F6"]:
+		tags["C02-F6:error-text-cut"] = true
+	case len(classes) == 1 && classes["F4+F6"]:
+		tags["C02-F4:invalid-event-arguments-not-stored"] = true
+		tags["C02-F6:error-text-cut"] = true
 	case len(classes) > 0:
 		tags["read-mismatch"] = true
 	}
-	return "TLog " + kit.List(terms), sortedTags(tags), nil
+	return fmt.Sprintf("TLog %s %s", kit.Bool(!sc.PLogCacheOff), kit.List(terms)), sortedTags(tags), nil
 }
 
 func sortedTags(m map[string]bool) []string {
@@ -447,6 +488,55 @@ func runCodec(sc *scenario) (string, []string, error) {
 	if dput.Digest != dread.Digest && dput.DigestNoFlags == dread.DigestNoFlags && dwlog.Digest == dread.Digest && dput.Coq != dread.Coq {
 		tags["C02-F3:cud-activation-flags-lost"] = true
 	}
+	if dput.Digest != dread.Digest && dput.StoredDigest == dread.Digest && dwlog.Digest == dread.Digest && dput.Cause == "F4" {
+		tags["C02-F4:invalid-event-arguments-not-stored"] = true
+	}
+	// append what a range read delivered (such an event keeps no bytes: PutWlog encodes it again) to the
+	// WLog of a second, empty storage and read that back
+	r2, err := newRig("mem", false)
+	if err != nil {
+		return "", nil, err
+	}
+	defer r2.close()
+	reput := false
+	err = r.app.Events().ReadWLog(context.Background(), istructs.WSID(s.WS), istructs.Offset(s.WOff), 2, func(o istructs.Offset, e istructs.IWLogEvent) error {
+		defer e.Release()
+		if uint64(o) != s.WOff {
+			return nil
+		}
+		pe, ok := e.(istructs.IPLogEvent)
+		if !ok {
+			return fmt.Errorf("event %T read from the WLog cannot be appended again", e)
+		}
+		reput = true
+		return r2.app.Events().PutWlog(pe)
+	})
+	if err != nil || !reput {
+		return "", nil, fmt.Errorf("re-append of the event read back: delivered=%v err=%v", reput, err)
+	}
+	reraw, ok, err := r2.rawEvent(true, s.WS, s.WOff)
+	if err != nil || !ok {
+		return "", nil, fmt.Errorf("re-appended WLog row not found (%v)", err)
+	}
+	reraw = append([]byte{}, reraw...)
+	var dre eventDump
+	err = r2.app.Events().ReadWLog(context.Background(), istructs.WSID(s.WS), istructs.Offset(s.WOff), 1, func(_ istructs.Offset, e istructs.IWLogEvent) error {
+		var err error
+		dre, err = r2.dump(e)
+		e.Release()
+		return err
+	})
+	if err != nil {
+		return "", nil, fmt.Errorf("ReadWLog of the re-appended event: %w", err)
+	}
+	if dre.Digest != dread.Digest {
+		cs.ReputText = dre.Text
+		if origRe.ReplaceAllString(dre.Text, "") == origRe.ReplaceAllString(dread.Text, "") {
+			tags["C02-F5:reencoded-error-event-loses-original-name"] = true
+		} else {
+			tags["reput-differs"] = true
+		}
+	}
 	// every proper prefix (bbolt: a sample, each write is a transaction)
 	cs.Accepted, cs.Tested = []int{}, 0
 	step := 1
@@ -490,7 +580,8 @@ func runCodec(sc *scenario) (string, []string, error) {
 	if err != nil {
 		return "", nil, err
 	}
-	coq := fmt.Sprintf("TCodec %s %s %s %s %d %d %s %s %s", masks, kit.Bytes(stored), dput.Coq, dread.Coq, dput.Digest, readDigest, kit.Bool(offOK), kit.List(acc), kit.List(muts))
+	coq := fmt.Sprintf("TCodec %s %s %s %s %d %d %s %s %s %s %d", masks, kit.Bytes(stored), dput.Coq, dread.Coq, dput.Digest, readDigest, kit.Bool(offOK), kit.List(acc), kit.List(muts),
+		kit.Bytes(reraw), dre.Digest)
 	if len(stored) > 255 {
 		tags["raw>255"] = true
 	}
